@@ -316,7 +316,21 @@ Definition add_unprocessed_module (s : state) (md : id) : option state :=
             (* self.unprocessed_modules.remove(first): ValueError when absent *)
             if negb (existsb (N.eqb first) (unproc s)) then None
             else
-              let s1 := set_unproc (set_allobj s m1) (remove1 first (unproc s)) in
+              let s0 := set_unproc (set_allobj s m1) (remove1 first (unproc s)) in
+              (* if first.parent is not None and first.parent.contents.get(first.name) is first:
+                     del first.parent.contents[first.name] *)
+              let s1 :=
+                match oparent (store s first) with
+                | None => s0
+                | Some p =>
+                  match cget (oname (store s first)) (ocont (store s p)) with
+                  | Some x => if N.eqb x first
+                              then set_store s0 (upd (store s) p (with_cont (store s p)
+                                                     (cdel (oname (store s first)) (ocont (store s p)))))
+                              else s0
+                  | None => s0
+                  end
+                end in
               (* self._addUnprocessedModule(dup): the name must be free now *)
               match fullpath s1 md with
               | None => None
